@@ -385,3 +385,26 @@ struct LabelReferences {
     declaration: Option<TextRange>,
     references: Vec<TextRange>,
 }
+
+#[cfg(emmyluals_emmylua_analyzer_rust_verif)]
+impl LuaReferenceIndex {
+    /// Verification hook: entry counts of every container of this index.
+    pub fn verif_sizes(&self) -> Vec<(&'static str, usize)> {
+        vec![
+            ("file_references", self.file_references.len()),
+            ("index_reference", self.index_reference.len()),
+            (
+                "index_reference/files",
+                self.index_reference.values().map(|m| m.len()).sum(),
+            ),
+            ("global_references", self.global_references.len()),
+            (
+                "global_references/files",
+                self.global_references.values().map(|m| m.len()).sum(),
+            ),
+            ("string_references", self.string_references.len()),
+            ("type_references", self.type_references.len()),
+            ("label_references", self.label_references.len()),
+        ]
+    }
+}
